@@ -7,19 +7,24 @@ import FitProps.CsvGateLemmas
 /-!
 # C19 — fitconv: FIT to CSV and back preserves messages and field values
 
-PROPERTY THEOREMS (audited by ./check): every `theorem C19_…` below. The model (`FitModel/Csv.lean`) is the
-conversion at the level of cells; the text of numbers and the quoting are abstracted (strconv / encoding/csv
-contract). The arithmetic of the scaled mode is the parameter `Arith` of the model; its instance `Arith.so`
-(`FitModel/CsvArith.lean`) is kit/scaleoffset + fitcsv.parseValue over the bit-exact binary64 of `FitModel/F64.lean` —
-the definitions C12 is about, run by the driver and compared with the implementation through the `csvarith`
-operations — and C12 discharges the hypothesis "the arithmetic gives every value back" for every scaled field of the
-profile (`C19_scaled_roundtrip_profile`).
+PROPERTY THEOREMS (audited by ./check): every `theorem C19_…` below.
 
-What remains ASSUMED (not modelled): the text layer — `strconv` (decimal text ↔ integer; `FormatFloat`/`ParseFloat`
-inverse of each other on float64; the text of a scaled value contains a '.', which holds for "x.0" and for every
-mantissa of more than one digit — a one-digit mantissa with exponent below −4, "1e-05", has none and no
-(scale, raw) of the profile produces one), `encoding/csv` quoting, `unicode.IsPrint`; and scaled 64-bit fields (none in
-the profile: `C12_profile_pairs_in_range`).
+* Cell level (`FitModel/Csv.lean`): a CSV data line is the message name and (name, value pieces, units) triples.
+  `C19_roundtrip` / `C19_roundtrip_convert`: FIT → CSV → FIT gives the expected messages for EVERY chain of files within the
+  decidable scope `csvUnambiguousB` (FitModel/CsvSpec.lean; the driver evaluates it on every generated input), every option.
+* Text level (`FitModel/CsvText.lean`): the characters — decimal integers (`strconv.FormatInt/ParseInt/ParseUint`),
+  `writeCell` quoting, lines, header, the padding pass, `encoding/csv` record by record. `C19_int_text_roundtrip`,
+  `C19_csv_quoting_roundtrip`, `C19_copy_all_lines`, `C19_columns_text`, `C19_roundtrip_text`.
+* The arithmetic of the scaled mode is the parameter `Arith` of the model; its instance `Arith.so`
+  (`FitModel/CsvArith.lean`) is kit/scaleoffset + fitcsv.parseValue over the bit-exact binary64 of `FitModel/F64.lean` —
+  the definitions C12 is about, run by the driver and compared with the implementation through the `csvarith`
+  operations — and C12 discharges "the arithmetic gives every value back" for every scaled field of the profile.
+
+What remains ASSUMED: float TEXT — `strconv.FormatFloat`/`ParseFloat` inverse of each other on float64, the text of a
+scaled value contains a '.' (a one-digit mantissa with exponent below −4, "1e-05", has none; no (scale, raw) of the
+profile produces one): at the text level this is the explicit hypothesis `FloatOK` of the theorems, not an axiom; at the
+cell level it is built into the atoms `.flt` / `.scaled` / `.degrees` —; the degrees arithmetic (`Arith.so.degrees` = identity);
+`unicode.IsPrint` beyond ASCII; scaled 64-bit fields (none in the profile: `C12_profile_pairs_in_range`).
 -/
 namespace Fit.C19
 open Fit.Msg Fit.Value Fit.Csv Fit.Gen Fit.Gen.Csv
